@@ -2,6 +2,12 @@ package biscuit
 
 // C12 — determinism and independence of presentation order. C18 — authorizer snapshots.
 
+import (
+	"time"
+
+	"github.com/biscuit-auth/biscuit-go/v2/datalog"
+)
+
 func gSwapAtoms(a []gAtom) []gAtom {
 	if len(a) < 2 {
 		return a
@@ -273,4 +279,38 @@ func VerifC12Twice() {
 	if qerr == nil && !fresh.qerr {
 		vAssert(gSetEq(fs, fresh.facts), "C12.same-derived-facts")
 	}
+}
+
+// VerifC18RefusedAfterFailure: an evaluation that ends in an error (a run limit, here) has still merged the
+// token's content into the authorizer: saving must be refused afterwards just as after a successful one,
+// otherwise the snapshot carries the token's facts into whatever authorizer loads it.
+func VerifC18RefusedAfterFailure() {
+	vForbidPanic("C18")
+	vTimerMode(0)
+	authority := gBlock{facts: []gAtom{{name: "right", c: 1}, {name: "right", c: 2}, {name: "right", c: 3}}}
+	g := gBuildToken(authority, nil)
+	maxFacts := vInt("maxFacts")
+	vAssume(vAnd(maxFacts >= 0, maxFacts <= 6))
+	src, err := NewVerifier(g.tok, WithWorldOptions(datalog.WithMaxFacts(maxFacts), datalog.WithMaxDuration(30*time.Second)))
+	if err != nil {
+		return
+	}
+	src.AddFact(Fact{Predicate{Name: "own", IDs: []Term{Integer(vInt64("own.c"))}}})
+	src.AddPolicy(DefaultAllowPolicy)
+	var everr error
+	if vChoose("evaluation", 2) == 0 {
+		vLabel("evaluated by Authorize")
+		everr = src.Authorize()
+	} else {
+		vLabel("evaluated by Query")
+		_, everr = src.Query(Rule{Head: Predicate{Name: "r", IDs: []Term{Variable("x")}}, Body: []Predicate{{Name: "own", IDs: []Term{Variable("x")}}}})
+	}
+	vObserve("evaluation-failed", everr != nil)
+	if everr != nil {
+		vCover("evaluation-failed")
+	} else {
+		vCover("evaluation-succeeded")
+	}
+	_, serr := src.SerializePolicies()
+	vAssert(serr != nil, "C18.refused-after-evaluation")
 }
